@@ -159,6 +159,14 @@ func (c *Ctx) FailObserved(clause, sig, format string, args ...any) {
 	c.fails = append(c.fails, Failure{Clause: clause, Sig: sig, Msg: fmt.Sprintf(format, args...), Observed: true})
 }
 
+// StopAll is set by an execution that observed a call which does not return and keeps allocating memory
+// (the goroutine cannot be stopped): the exploration ends as at a deadline, so that the violation is
+// reported before the process runs out of memory.
+var StopAll atomic.Bool
+
+// StopExploration ends this and all later explorations of the process (see StopAll).
+func (c *Ctx) StopExploration() { StopAll.Store(true) }
+
 // Failed reports whether a clause has failed in this execution.
 func (c *Ctx) Failed() bool { return len(c.fails) > 0 }
 
@@ -502,6 +510,14 @@ func normalisePanic(s string) string {
 }
 
 func (e *explorer) runOne(t task) []task {
+	if StopAll.Load() {
+		e.mu.Lock()
+		e.stop = true
+		e.capHit = "stopped: a call that does not return was observed"
+		e.mu.Unlock()
+		e.cond.Broadcast()
+		return nil
+	}
 	if !e.cfg.Deadline.IsZero() && time.Now().After(e.cfg.Deadline) {
 		e.mu.Lock()
 		e.stop = true
